@@ -46,6 +46,7 @@ type Contract struct {
 	Ensures    []Clause
 	Constraint []Clause // gadget-mode constraint clauses
 	Hint       []Clause // gadget-mode: facts about honest hint outputs (completeness mode)
+	Lemmas     []Clause // trusted lemma instances assumed at the return points where their names are in scope
 	Assigns    []Clause
 	HasAssigns bool
 	NoPanic    bool
@@ -78,7 +79,7 @@ func newContractSet() *ContractSet {
 }
 
 var clauseKW = map[string]bool{"requires": true, "ensures": true, "assigns": true, "nopanic": true, "loop": true, "trusted": true,
-	"pure": true, "props": true, "constraint": true, "hint": true, "mode": true, "fork": true, "panics-only-if": true, "inline": true, "bounded": true, "use": true}
+	"pure": true, "lemma": true, "props": true, "constraint": true, "hint": true, "mode": true, "fork": true, "panics-only-if": true, "inline": true, "bounded": true, "use": true}
 
 var topKW = map[string]bool{"spec": true, "axiom": true, "contract": true, "opaque": true, "transparent": true, "ghost": true}
 
@@ -254,7 +255,7 @@ func (cs *ContractSet) parseContractFile(file, pkgPath string) error {
 				return errf(fmt.Errorf("clause %q outside a contract", kw))
 			}
 			switch kw {
-			case "requires", "ensures", "constraint", "hint", "assigns", "panics-only-if":
+			case "requires", "ensures", "constraint", "hint", "assigns", "panics-only-if", "lemma":
 				if kw == "assigns" {
 					cur.HasAssigns = true
 					if rest == "" || rest == "nothing" {
@@ -282,6 +283,8 @@ func (cs *ContractSet) parseContractFile(file, pkgPath string) error {
 					cur.Constraint = append(cur.Constraint, c)
 				case "hint":
 					cur.Hint = append(cur.Hint, c)
+				case "lemma":
+					cur.Lemmas = append(cur.Lemmas, c)
 				case "panics-only-if":
 					cur.PanicsOnly = &c
 					cur.NoPanic = true
